@@ -157,36 +157,51 @@ func StepWorkflowPaths(wf *workflow.Workflow) map[string]string {
 // SubworkflowCache creates a file cache of the sub-workflows referenced
 // in this workflow using rootDir as a context.
 func SubworkflowCache(wf *workflow.Workflow, rootDir string, converter workflow.YAMLConverter, flowCaches []loadfile.FileCache) (loadfile.FileCache, error) {
+	return subworkflowCache(wf, rootDir, converter, flowCaches, nil)
+}
+
+// subworkflowCache is SubworkflowCache with the chain of sub-workflow files that led to wf, so that a
+// workflow that (transitively) references itself is reported instead of being followed forever.
+func subworkflowCache(
+	wf *workflow.Workflow,
+	rootDir string,
+	converter workflow.YAMLConverter,
+	flowCaches []loadfile.FileCache,
+	parentFiles []string,
+) (loadfile.FileCache, error) {
 	stepWorkflowPaths := StepWorkflowPaths(wf)
 	if len(stepWorkflowPaths) == 0 {
 		return nil, nil
 	}
-	subworkflowCache, err := loadfile.NewFileCacheUsingContext(rootDir, stepWorkflowPaths)
+	stepFilesCache, err := loadfile.NewFileCacheUsingContext(rootDir, stepWorkflowPaths)
 	if err != nil {
 		return nil, err
 	}
-	err = subworkflowCache.LoadContext()
+	err = stepFilesCache.LoadContext()
 	if err != nil {
 		return nil, err
 	}
-	for _, ctxFile := range subworkflowCache.Files() {
+	for _, ctxFile := range stepFilesCache.Files() {
+		for _, parentFile := range parentFiles {
+			if parentFile == ctxFile.AbsolutePath {
+				return nil, fmt.Errorf("sub-workflow file %s references itself through its foreach steps", ctxFile.AbsolutePath)
+			}
+		}
 		subwf, err := converter.FromYAML(ctxFile.Content)
 		if err != nil {
 			return nil, err
 		}
-		flowCache, err := SubworkflowCache(subwf, rootDir, converter, flowCaches)
+		// Copy, so that sibling sub-workflows do not see each other's chain.
+		chain := append(append(make([]string, 0, len(parentFiles)+1), parentFiles...), ctxFile.AbsolutePath)
+		flowCache, err := subworkflowCache(subwf, rootDir, converter, flowCaches, chain)
 		if err != nil {
 			return nil, err
 		}
 		flowCaches = append(flowCaches, flowCache)
 	}
 
-	flowCaches = append(flowCaches, subworkflowCache)
-	subworkflowCache, err = loadfile.MergeFileCaches(flowCaches...)
-	if err != nil {
-		return nil, err
-	}
-	return subworkflowCache, nil
+	flowCaches = append(flowCaches, stepFilesCache)
+	return loadfile.MergeFileCaches(flowCaches...)
 }
 
 // SupportedVersion confirms whether a given version string
